@@ -2,7 +2,7 @@
    (`del self.nodes[name]`, the assertion in _add), update_serial at the level of the public call. *)
 From DV Require Import Base.Prelude Model.NameM Model.TxnM.
 From DV Require Import Proofs.NameValid Proofs.NameOrder Proofs.NameRel.
-From DV Require Import Proofs.TxnName Proofs.TxnStore Proofs.TxnLow Proofs.TxnSim Proofs.TxnThm Proofs.TxnIrrel Proofs.TxnSpec.
+From DV Require Import Proofs.TxnName Proofs.TxnStore Proofs.TxnLow Proofs.TxnSim Proofs.TxnThm Proofs.TxnIrrel Proofs.TxnSpec Proofs.TxnAbs.
 Open Scope Z_scope.
 
 Definition not_internal {A} (r : res A) : Prop := forall e, r <> Internal e.
@@ -261,3 +261,135 @@ Proof.
   rewrite (r_get_put c s [] new s' [] (c_origin c) (c_origin c) tSOA 0 Hwf eq_refl Ca Ca Rp).
   rewrite name_eqb_refl. reflexivity.
 Qed.
+
+(* ---------------------------------------------------------------- update_serial: the full table *)
+Section SerialTable.
+  Variable c : cfg.
+  Hypothesis W : wfc c.
+
+  Lemma canon_empty : canon c [] = Ok (c_origin c).
+  Proof. destruct W as [Vo _]. unfold canon. cbn [is_absolute app]. rewrite (mk_name_valid _ Vo). reflexivity. Qed.
+
+  Lemma origin_ok_empty : origin_ok c [] = true.
+  Proof. unfold origin_ok, NameM.empty. rewrite (name_eqb_refl []). destruct (name_eqb [] _), (name_eqb [] _); reflexivity. Qed.
+
+  (* storing the new SOA at the origin *)
+  Lemma replace_soa s ttl body ser :
+    swf (rs_entries s) ->
+    exists s', hl_add (rstore c) c true [AName []; ARds (mkRds cIN tSOA 0 ttl [(body, ser)])] s = Ok s' /\
+               r_get c s' [] tSOA 0 = Ok (Some (mkRds cIN tSOA 0 ttl [(body, ser)])).
+  Proof.
+    intros Hwf. unfold hl_add, add_parse. cbn [rdataset_from_args bind fst snd r_cls r_ty].
+    change (cIN =? cIN) with true. change (tSOA =? tSOA) with true. cbn [negb andb]. rewrite origin_ok_empty.
+    cbn [negb bind s_put rstore].
+    destruct (r_put c s [] (mkRds cIN tSOA 0 ttl [(body, ser)])) as [s'|e|e] eqn:Rp.
+    2,3: unfold r_put in Rp; rewrite canon_empty in Rp; discriminate.
+    exists s'. split; [reflexivity|].
+    rewrite (r_get_put c s [] (mkRds cIN tSOA 0 ttl [(body, ser)]) s' [] (c_origin c) (c_origin c) tSOA 0 Hwf eq_refl canon_empty canon_empty Rp).
+    rewrite name_eqb_refl. reflexivity.
+  Qed.
+
+  (* Given a writable, open transaction whose zone has an SOA (body, serial) at the origin, update_serial
+     (default name) behaves as follows for EVERY value and both modes. *)
+  Theorem update_serial_table s body serial items ttl value relative :
+    swf (rs_entries s) ->
+    r_get c s [] tSOA 0 = Ok (Some (mkRds cIN tSOA 0 ttl ((body, serial) :: items))) ->
+    let t := mkTxn s false false in
+    let result := hl_update_serial (rstore c) c value relative None t in
+    if value <? 0 then result = Lib eValueError
+    else if relative && (value >? 2147483647) then result = Lib eValueError
+    else
+      let sum := if relative then (serial mod 4294967296 + value) mod 4294967296 else value mod 4294967296 in
+      exists s', result = Ok (mkTxn s' false false) /\
+                 r_get c s' [] tSOA 0 = Ok (Some (mkRds cIN tSOA 0 ttl [(body, bump sum)])).
+  Proof.
+    intros Hwf G t result. subst t result. unfold hl_update_serial. cbn [t_ended t_st t_ro]. unfold NameM.empty.
+    destruct (value <? 0) eqn:E0; [reflexivity|]. cbn [bind s_get rstore]. rewrite G. cbn [bind r_items r_ttl].
+    assert (0 <= value) as Hv by lia.
+    destruct relative; cbn [andb].
+    - unfold serial_add. rewrite Z.abs_eq by lia. destruct (value >? 2147483647); [reflexivity|]. cbn [bind].
+      unfold hl_write. cbn [t_ended t_ro t_st].
+      destruct (replace_soa s ttl body (if (serial mod 4294967296 + value) mod 4294967296 =? 0 then 1
+                                        else (serial mod 4294967296 + value) mod 4294967296) Hwf) as (s' & H1 & H2).
+      rewrite H1. cbn [bind with_st t_ro t_ended]. exists s'. split; [reflexivity|exact H2].
+    - cbn [bind]. unfold hl_write. cbn [t_ended t_ro t_st].
+      destruct (replace_soa s ttl body (if value mod 4294967296 =? 0 then 1 else value mod 4294967296) Hwf) as (s' & H1 & H2).
+      rewrite H1. cbn [bind with_st t_ro t_ended]. exists s'. split; [reflexivity|exact H2].
+  Qed.
+
+  (* no SOA at the origin: KeyError; read-only transaction: ReadOnly (after the argument checks); ended:
+     AlreadyEnded - for any store *)
+  Theorem update_serial_no_soa s value relative :
+    0 <= value -> r_get c s [] tSOA 0 = Ok None ->
+    hl_update_serial (rstore c) c value relative None (mkTxn s false false) = Lib eKeyError.
+  Proof.
+    intros Hv G. unfold hl_update_serial. cbn [t_ended t_st]. unfold NameM.empty.
+    destruct (value <? 0) eqn:E0; [lia|]. cbn [bind s_get rstore]. rewrite G. reflexivity.
+  Qed.
+End SerialTable.
+
+(* ---------------------------------------------------------------- changed() is truthful *)
+(* As long as changed() is False the private node map of the version is, literally, the map it started
+   from: no call that reports success has altered anything without being recorded. *)
+Section Changed.
+  Variable c : cfg.
+
+  Definition untouched (m0 : nmap) (v : version) : Prop := v_changed v = [] -> v_nodes v = m0.
+
+  Lemma cow_changed v n v1 nd k : maybe_cow c v n = Ok (v1, nd, k) -> v_changed v1 <> [].
+  Proof.
+    unfold maybe_cow. destruct (validate_name c n) as [k0| |]; cbn [bind]; try discriminate.
+    destruct (map_get (v_nodes v) k0).
+    - destruct (changed_has (v_changed v) k0) eqn:Ch; intros H; inversion H; subst.
+      + intros E. rewrite E in Ch. discriminate.
+      + cbn. unfold changed_add. rewrite Ch. destruct (v_changed v); discriminate.
+    - intros H; inversion H; subst. cbn. unfold changed_add.
+      destruct (changed_has (v_changed v) k) eqn:Ch; [intros E; rewrite E in Ch; discriminate|destruct (v_changed v); discriminate].
+  Qed.
+
+  Lemma put_untouched m0 v n r v' : put_rdataset c v n r = Ok v' -> untouched m0 v'.
+  Proof.
+    unfold put_rdataset. destruct (maybe_cow c v n) as [[[v1 nd] k]| |] eqn:Cw; cbn [bind]; try discriminate.
+    intros H; inversion H; subst. intros E. cbn in E. exfalso. eapply cow_changed; eauto.
+  Qed.
+
+  Lemma del_rds_untouched m0 v n ty cov v' : delete_rdataset c v n ty cov = Ok v' -> untouched m0 v'.
+  Proof.
+    unfold delete_rdataset. destruct (maybe_cow c v n) as [[[v1 nd] k]| |] eqn:Cw; cbn [bind]; try discriminate.
+    destruct (node_delete nd cIN ty cov).
+    - destruct (map_del (v_nodes v1) k); cbn [bind]; try discriminate.
+      intros H; inversion H; subst. intros E. cbn in E. exfalso. eapply cow_changed; eauto.
+    - intros H; inversion H; subst. intros E. cbn in E. exfalso. eapply cow_changed; eauto.
+  Qed.
+
+  Lemma del_name_untouched m0 v n v' : untouched m0 v -> delete_node c v n = Ok v' -> untouched m0 v'.
+  Proof.
+    intros U. unfold delete_node. destruct (validate_name c n) as [k| |]; cbn [bind]; try discriminate.
+    destruct (map_has (v_nodes v) k); intros H; inversion H; subst; [|exact U].
+    intros E. cbn in E. exfalso. unfold changed_add in E.
+    destruct (changed_has (v_changed v) k) eqn:Ch; [rewrite E in Ch; discriminate|destruct (v_changed v); discriminate].
+  Qed.
+
+  Theorem changed_is_truthful mode z ops t' :
+    Forall op_valid ops ->
+    final_txn (zstore c) c ops z (open_txn (zstore c) mode z) = Some t' ->
+    s_changed (zstore c) (t_st t') = false ->
+    v_nodes (t_st t') = v_nodes (t_st (open_txn (zstore c) mode z)).
+  Proof.
+    intros F Hf Hc.
+    set (m0 := v_nodes (t_st (open_txn (zstore c) mode z))).
+    assert (untouched m0 (t_st t')) as U.
+    { assert (untouched m0 (t_st (open_txn (zstore c) mode z))) as U0 by (intros _; reflexivity).
+      revert U0 Hf. generalize (open_txn (zstore c) mode z) as t. generalize z as zz.
+      induction F as [|o ops Fo Fr IH]; intros zz t U0; cbn [final_txn].
+      - intros H; inversion H; subst. exact U0.
+      - destruct (step (zstore c) c o zz t) as [[[x z1] t1]| |] eqn:Es; try discriminate.
+        intros Hf. apply (IH z1 t1); [|exact Hf].
+        destruct (step_inv (zstore c) c (untouched m0) (fun _ => True)) with (o := o) (z := zz) (t := t) (x := x) (z' := z1) (t' := t1) as [_ H]; auto.
+        + intros s n ty cov r. apply get_cls.
+        + intros s n r s' _ _ _. apply put_untouched.
+        + intros s n s' Hs _. apply del_name_untouched; exact Hs.
+        + intros s n ty cov s' _ _. apply del_rds_untouched. }
+    apply U. cbn [s_changed zstore] in Hc. destruct (v_changed (t_st t')); [reflexivity|discriminate].
+  Qed.
+End Changed.
